@@ -479,6 +479,9 @@ class Engine(object):
         if integer:
             self.solver.add(z3.IsInt(v))
             self.model = None
+            if not hasattr(self, "_int_inputs"):
+                self._int_inputs = set()
+            self._int_inputs.add(name)
         return Sym(v)
 
     def const(self, x):
@@ -489,7 +492,11 @@ class Engine(object):
         if k in self._sqrt_cache:
             return self._sqrt_cache[k]
         r = z3.Real("sqrt!%d" % len(self._sqrt_cache))
-        self.solver.add(r >= 0, r * r == s.z)
+        # path exploration only knows r >= 0 (keeps the feasibility queries
+        # linear: an over-approximation of the feasible paths); the defining
+        # equation is added to every obligation query of the path
+        self.solver.add(r >= 0)
+        self.side.append(r * r == s.z)
         self.keep.append(s.z)
         self.model = None
         res = Sym(r)
@@ -713,6 +720,8 @@ class Engine(object):
         s = z3.Solver()
         s.set("timeout", timeout_ms or self.obl_timeout_ms)
         s.add(self.solver.assertions())
+        if self.side:
+            s.add(self.side)
         return s
 
     def _nice_model(self, negs):
@@ -921,13 +930,25 @@ class Engine(object):
                 self.path_records.append(rec)
 
     def _nice_path_model(self):
+        """a model of the path on a dyadic lattice (float64 then follows the
+        same path exactly); generic values are preferred (non-integer,
+        pairwise distinct as far as the path allows) so that float replays do
+        not degenerate to all-zero inputs"""
+        ints = getattr(self, "_int_inputs", set())
         for denom, lim, to in ((16, 1024, 2000), (1024, 1 << 20, 3000)):
-            s = self._fresh_solver(to)
-            for i, (name, v) in enumerate(self.inputs):
-                k = z3.Int("k!%d" % i)
-                s.add(v * denom == z3.ToReal(k), k >= -lim, k <= lim)
-            if s.check() == z3.sat:
-                return s.model()
+            for level in (2, 1, 0):
+                s = self._fresh_solver(to)
+                ks = []
+                for i, (name, v) in enumerate(self.inputs):
+                    k = z3.Int("k!%d" % i)
+                    ks.append(k)
+                    s.add(v * denom == z3.ToReal(k), k >= -lim, k <= lim)
+                    if level >= 1 and name not in ints:
+                        s.add(k % denom != 0)
+                if level >= 2 and len(ks) > 1:
+                    s.add(z3.Distinct(*ks))
+                if s.check() == z3.sat:
+                    return s.model()
         return None
 
     def stats(self):
